@@ -59,6 +59,15 @@ def _json_equal(left: object, right: object) -> bool:
     return left == right
 
 
+def _array_index(target: Union[int, str]) -> int:
+    # The pointer extensions `#0` and `~0` resolve against an array, but they
+    # do not identify an array element.
+    try:
+        return int(target)
+    except ValueError as err:
+        raise JSONPatchError(f"invalid array index {target!r}") from err
+
+
 class Op(ABC):
     """One of the JSON Patch operations."""
 
@@ -108,7 +117,7 @@ class OpAdd(Op):
                 else:
                     raise JSONPatchError("index out of range")
             else:
-                parent.insert(int(target), value)
+                parent.insert(_array_index(target), value)
         elif isinstance(parent, MutableMapping):
             parent[_member_name(parent, target)] = value
         else:
@@ -157,7 +166,7 @@ class OpAddNe(OpAdd):
                 else:
                     raise JSONPatchError("index out of range")
             else:
-                parent.insert(int(target), value)
+                parent.insert(_array_index(target), value)
         elif isinstance(parent, MutableMapping):
             target = _member_name(parent, target)
             if target not in parent:
@@ -196,7 +205,7 @@ class OpAddAp(OpAdd):
             if obj is UNDEFINED:
                 parent.append(value)
             else:
-                parent.insert(int(target), value)
+                parent.insert(_array_index(target), value)
         elif isinstance(parent, MutableMapping):
             parent[_member_name(parent, target)] = value
         else:
@@ -227,7 +236,7 @@ class OpRemove(Op):
         if isinstance(parent, MutableSequence):
             if obj is UNDEFINED:
                 raise JSONPatchError("can't remove nonexistent item")
-            del parent[int(self.path.parts[-1])]
+            del parent[_array_index(self.path.parts[-1])]
         elif isinstance(parent, MutableMapping):
             if obj is UNDEFINED:
                 raise JSONPatchError("can't remove nonexistent property")
@@ -268,7 +277,7 @@ class OpReplace(Op):
         if isinstance(parent, MutableSequence):
             if obj is UNDEFINED:
                 raise JSONPatchError("can't replace nonexistent item")
-            parent[int(self.path.parts[-1])] = value
+            parent[_array_index(self.path.parts[-1])] = value
         elif isinstance(parent, MutableMapping):
             if obj is UNDEFINED:
                 raise JSONPatchError("can't replace nonexistent property")
@@ -308,7 +317,7 @@ class OpMove(Op):
             raise JSONPatchError("source object does not exist")
 
         if isinstance(source_parent, MutableSequence):
-            del source_parent[int(self.source.parts[-1])]
+            del source_parent[_array_index(self.source.parts[-1])]
         if isinstance(source_parent, MutableMapping):
             del source_parent[_member_name(source_parent, self.source.parts[-1])]
 
